@@ -1,6 +1,7 @@
 package checks
 
 import (
+	"encoding/json"
 	"fmt"
 	"math"
 	"strconv"
@@ -323,6 +324,30 @@ func judgeC12Pos(c *core.Case, cfg *core.Config) core.Verdict {
 			return v
 		}
 	}
+	// the same text lexed through ONE long-lived *file.Source that is re-loaded for every case (what decoding a
+	// stored program into an existing value does): the same tokens at the same positions
+	if data, jerr := json.Marshal(file.NewSource(src)); jerr == nil {
+		if jerr = json.Unmarshal(data, c12Reused); jerr == nil {
+			again, lerr := func() (t []lexer.Token, err error) {
+				defer func() {
+					if r := recover(); r != nil {
+						err = fmt.Errorf("PANIC in Lex: %v", r)
+					}
+				}()
+				return lexer.Lex(c12Reused)
+			}()
+			if lerr != nil || len(again) != len(got) {
+				v.Violation = fmt.Sprintf("token sequence %q lexed through a re-loaded Source: %v %v, through a fresh one: %v", src, again, lerr, got)
+				return v
+			}
+			for i := range got {
+				if again[i] != got[i] {
+					v.Violation = fmt.Sprintf("token sequence %q lexed through a re-loaded Source: token %d is %v at %d:%d, through a fresh one %v at %d:%d", src, i, again[i], again[i].Line, again[i].Column, got[i], got[i].Line, got[i].Column)
+					return v
+				}
+			}
+		}
+	}
 	multi := false
 	for _, r := range src {
 		if r >= 0x80 {
@@ -340,6 +365,9 @@ func judgeC12Pos(c *core.Case, cfg *core.Config) core.Verdict {
 	v.NonTriv = nl && multi && len(toks) >= 2
 	return v
 }
+
+// c12Reused is one Source value per process, re-loaded through its JSON decoding for every layout case.
+var c12Reused = file.NewSource("first text\nof two lines")
 
 var c12Runes = []rune{'a', '"', '\'', '\\', '\n', '\r', '\t', 0, 1, 0x7f, 0x80, 0xff, 0x100, 'é', '😀', 0x2028, 0x85, 0xd7ff, 0xe000, 0xfffd, 0x10ffff, '`', '?', '{', ' ', 0xfeff, 0x10fffe}
 
